@@ -45,6 +45,14 @@ impl Builder<'_> {
         if matches!(target, Datastore::Running) {
             return Err(Error::DeleteRunningConfig);
         };
+        // RFC 6241 allows only <startup/> (:startup) and URLs (:url) as the target of
+        // <delete-config> (sections 8.7.5.1, 8.8.5.3).
+        if matches!(target, Datastore::Candidate) {
+            return Err(Error::UnsupportedTarget {
+                datastore: target,
+                required_capabilities: Requirements::None,
+            });
+        };
         target.try_as_target(self.ctx).map(|target| {
             self.target.set(Target::Datastore(target));
             self
